@@ -8,7 +8,7 @@ HERE = os.path.dirname(os.path.dirname(os.path.abspath(__file__)))
 CLAIMS = {
     "C17": dict(
         technique="custom AST/CFG lint: reader/writer discipline, who-may-write, must-pass-through and effect rules over the backend managers (branch-consistent path exploration of set_backend / load_backend / backend_context)",
-        text="Decides the six structural premises R1-R6 (reader discipline, per-call dispatch, writer discipline incl. write-after-resolve, context save/try-finally/scope-preserving restore, instance-type agreement between load_backend and set_backend, independent state per manager) from which the per-thread-stack behaviour follows for every interleaving (the argument is per-location, not per-schedule). It does not execute any schedule.",
+        text="Decides the six structural premises R1-R6 (reader discipline, per-call dispatch, writer discipline incl. write-after-resolve, context save/try-finally/scope-preserving restore with no store when the entering selection is rejected, instance-type agreement between load_backend and set_backend, independent state per manager) from which the per-thread-stack behaviour follows for every interleaving (the argument is per-location, not per-schedule). It does not execute any schedule.",
         note="Trusted: CPython threading.local semantics, GIL atomicity of single attribute loads/stores, and the paper argument from R1-R6 to the property (DESIGN.md C17).",
         design="DESIGN.md §3 C17",
     ),
@@ -17,19 +17,19 @@ CLAIMS = {
 CLAIMS.update({
     "C01": dict(
         technique="custom AST lint over tensorly/base.py: def-use closure of the tensor argument (layout-only), slot-wise AST comparison of forward/inverse pairs, keyword-forwarding check",
-        text="Decides four structural clauses: (AXIS-LIVE) every ordering parameter (mode, row_modes, column_modes, skip_begin) reaches an axis argument of moveaxis/transpose on every return path or selects it by a test, so no path can ignore a requested ordering; (LAYOUT-ONLY) in all nine layout functions the tensor reaches every return only through reshape/moveaxis/transpose and sibling layout functions, so no entry can be dropped, duplicated, rounded or re-typed for any shape/dtype; (INVERSE-MIRROR) fold/partial_fold undo exactly the axis move and shape bookkeeping of unfold/partial_unfold; (FORWARD) the vec helpers forward skip_begin/skip_end with mode=0. It does NOT decide that the permutation is the documented one (index arithmetic).",
+        text="Decides four structural clauses: (AXIS-LIVE) every ordering parameter (mode, row_modes, column_modes, skip_begin) reaches an axis argument of moveaxis/transpose on every return path or selects it by a test, so no path can ignore a requested ordering; (LAYOUT-ONLY) in all nine layout functions the tensor reaches every return only through reshape/moveaxis/transpose and sibling layout functions, so no entry can be dropped, duplicated, rounded or re-typed for any shape/dtype; (INVERSE-MIRROR) fold/partial_fold undo exactly the axis move and shape bookkeeping of unfold/partial_unfold; (FORWARD) the vec helpers forward skip_begin/skip_end with mode=0. (SHAPE-BY-POSITION) shape-derived lists are edited by position, never by value (sizes are not unique). It does NOT decide that the permutation is the documented one (index arithmetic).",
         note="Trusted: backend reshape/moveaxis/transpose are bijections on entries and keep the dtype (NumPy semantics).",
         design="DESIGN.md §3 C01",
     ),
     "C02": dict(
         technique="registry/table agreement, signature agreement between sibling implementations, repository-wide call-binds check over the resolved call graph, flow-sensitive may-dependence analysis (every option influences every return)",
-        text="Decides six structural necessary conditions: (HOMOGENEITY) MTTKRP in its three variants is homogeneous of degree 1 in the tensor, in the weights when given and in every factor but the skipped one (dimensional analysis with list lengths linear in the number of factors and affine loop acceleration); (SKIP-INDEX) the skip_matrix filter of khatri_rao/kronecker/sample_khatri_rao runs on the list as given; the dispatch table and both backends' registrations agree and resolve to functions; core and einsum siblings are call-compatible; every resolved call binds to its callee's signature; every option (weights, mask, skip_matrix, reverse, transpose, skip, modes, n_modes, batched_modes, cp_tensor weights) influences every return path of every operation. It does NOT decide that an einsum equation or reshape chain equals the textbook formula.",
+        text="Decides structural necessary conditions: (AXIS-FAMILY) in tensordot (core, einsum) and _validate_contraction_modes an axis number of one tensor is only ever combined (indexing, membership, negative-axis normalisation, transpose) with the shape / ndim / axis lists of the same tensor, and the validator returns (axes of tensor 1, axes of tensor 2) -- a type rule that holds for all orders and modes; (HOMOGENEITY) khatri_rao, kronecker, multi_mode_dot and mode_dot in both backends, and MTTKRP in its three variants, are homogeneous of degree 1 in the tensor, in the weights when given and in every factor but the skipped one (dimensional analysis with list lengths linear in the number of factors and affine loop acceleration); (SKIP-INDEX) the skip_matrix filter of khatri_rao/kronecker/sample_khatri_rao runs on the list as given; the dispatch table and both backends' registrations agree and resolve to functions; core and einsum siblings are call-compatible; every resolved call binds to its callee's signature; every option (weights, mask, skip_matrix, reverse, transpose, skip, modes, n_modes, batched_modes, cp_tensor weights) influences every return path of every operation. It does NOT decide that an einsum equation or reshape chain equals the textbook formula.",
         note="Trusted: may-dependence is an over-approximation (can miss, cannot over-report); user callables and decorated functions with unknown decorators are skipped.",
         design="DESIGN.md §3 C02",
     ),
     "C03": dict(
         technique="must-pass-through check on constructor CFGs (branch-consistent path exploration) + delegation-shape lint for views and wrapper methods over resolved callees",
-        text="Decides: (HOMOGENEITY) every value returned by cp_to_tensor/_unfolded/_vec, cp_norm, tucker_to_tensor/_unfolded/_vec, tt_to_tensor/_vec, tr_to_tensor and parafac2_to_slice has the homogeneity degree of the defining contraction (degree 1 in weights/core, in every factor, in the mask when given) for weights present and absent on every return path -- a dimensional analysis that is exact for 'applied twice / forgotten' errors and blind to wrong indices or coefficients; every wrapper constructor (CP, Tucker, TT, TR, TT-matrix, PARAFAC2) validates the unmodified operand on every path before storing state and takes shape/rank from the validator; every delegating view and wrapper method hands the unmodified operand and mode to the family's dense reconstruction and wraps it only in layout functions, so those views agree with the dense tensor by construction. It does NOT decide the index structure of the reconstructions (only their multilinearity degree).",
+        text="Decides: (REJECT-TWO-SIDED) every rejecting test of the six validators is an (in)equality/count test or compares a quantity that is non-negative by construction with its tolerance, so no direction of deviation is accepted; (HOMOGENEITY) every value returned by cp_to_tensor/_unfolded/_vec, cp_norm, tucker_to_tensor/_unfolded/_vec, tt_to_tensor/_vec, tr_to_tensor and parafac2_to_slice has the homogeneity degree of the defining contraction (degree 1 in weights/core, in every factor, in the mask when given) for weights present and absent on every return path -- a dimensional analysis that is exact for 'applied twice / forgotten' errors and blind to wrong indices or coefficients; every wrapper constructor (CP, Tucker, TT, TR, TT-matrix, PARAFAC2) validates the unmodified operand on every path before storing state and takes shape/rank from the validator; every delegating view and wrapper method hands the unmodified operand and mode to the family's dense reconstruction and wraps it only in layout functions, so those views agree with the dense tensor by construction. It does NOT decide the index structure of the reconstructions (only their multilinearity degree).",
         note="Trusted: layout functions are pure re-arrangements (C01); validators' individual checks are not examined.",
         design="DESIGN.md §3 C03",
     ),
@@ -107,8 +107,16 @@ CLAIMS.update({
     ),
 })
 
+CLAIMS.update({
+    "C04": dict(
+        technique="dimensional analysis by structural abstract interpretation (homogeneity degrees as linear forms in the number of factors, per-position list tracking, affine loop acceleration, path splitting at flag-dependent branches) + sign-parity and zero-sign lints",
+        text="PARTIAL claim; decides necessary conditions only. (DEGREE-CONSERVED) the object returned by cp_normalize, tucker_normalize, parafac2_normalise and cp_flip_sign represents a tensor with the same homogeneity degree in the weights/core, in every factor and in the projections as its input, and cp_mode_dot / tucker_mode_dot (matrix branch and contracted-vector branch) add exactly degree 1 in the operand -- for weights present and absent, on every return path and any number of factors; (SCALE-FREE) every factor returned by a normaliser has degree 0 in all inputs, the scale being carried by the weights/core alone; (SIGN-PARITY) in cp_flip_sign every sign vector enters the represented tensor an even number of times; (SIGN-NONZERO) a sign vector that multiplies a factor cannot vanish where the component does not. It does NOT decide that the represented tensors are equal (wrong index / column order conserve degree), the unit norm itself, cp_permute_factors' alignment, TT/TR rank padding, CP->PARAFAC2 conversion or the SVD compress/decompress round trip.",
+        note="Trusted: degree specification of dot / mode_dot / norm / reshape; where(x == 0, 1, x) is evaluated as x (generic case); cp_mode_dot / tucker_mode_dot analysed with copy=True. Found and repaired: cp_flip_sign annihilated components with a zero-mean column (fix commit in /repo, known_findings.json).",
+        design="DESIGN.md §17 (C04)",
+    ),
+})
+
 NA = {
-    "C04": "Equality of floating-point tensors across norms, signs, QR and SVD: no structural necessary condition exists that is not a frozen copy of the formula; the one shape-level clause (transforms must not write into their argument) is decided under C15.",
     "C05": "Singular values, orthonormality and optimal truncation error are numerical facts about LAPACK results; no sound static argument bounds them.",
     "C07": "Monotone descent quantifies over the runtime values of every iterate; the only structural clause (line-search acceptance guarded by an error comparison) is too small a share of the property to claim it.",
     "C09": "Error bounds in terms of the data's singular spectrum are purely numerical.",
